@@ -49,6 +49,14 @@ Fixpoint take_Nf (bs : bytes) (n : N) {struct bs} : option (bytes * bytes) :=
   end.
 Definition take_N (n : N) (bs : bytes) : option (bytes * bytes) := take_Nf bs n.
 
+(* the first min(n, available) bytes (a read loop that stops silently at EOF) *)
+Fixpoint take_upto (bs : bytes) (n : N) {struct bs} : bytes * bytes :=
+  if n =? 0 then ([], bs) else
+  match bs with
+  | [] => ([], [])
+  | b :: r => let (h, t) := take_upto r (N.pred n) in (b :: h, t)
+  end.
+
 Definition bytes_ok (bs : bytes) : bool := forallb (fun b => b <? 256) bs.
 
 Fixpoint bytes_eqb (a b : bytes) : bool :=
